@@ -147,9 +147,13 @@ impl Drop for Client {
         // If `add_permit` was called at the end of the `run` function and some
         // bug causes a panic. The permit would never be returned to the
         // semaphore.
+        // (the sequence number is drawn before the permit becomes visible to the accept loop)
+        #[cfg(memcrs_verif)]
+        let verif_seq = crate::verif::next_seq();
         self.limit_connections.add_permits(1);
         #[cfg(memcrs_verif)]
-        crate::verif::note(
+        crate::verif::note_at(
+            verif_seq,
             "sem.release",
             None,
             [
